@@ -10,8 +10,8 @@ open Lm.Struct
 inductive Kind | none | queue | stack | list
   deriving DecidableEq
 
-/-- the comparator the harness hands to `m_list_new`: `a % 8 - b % 8` -/
-def cmpEq (a b : Val) : Bool := a % 8 == b % 8
+/-- the comparator the harness hands to `m_list_new`: `a % 8 - (b / 8) % 8` (data first, element second; not symmetric) -/
+def cmpEq (a b : Val) : Bool := a % 8 == (b / 8) % 8
 
 def fmtVal (v : Val) : String := if v == 0 then "nil" else toString v
 
